@@ -17,6 +17,9 @@ def run(tier, seed):
     rng = random.Random(seed)
     q = tier == 'quick'
     cases = [dict(id=i, seed=rng.randrange(10 ** 9)) for i in range(200 if q else 12000)]
+    rp = replay_input()
+    if rp and rp['kind'] == 'argv':
+        cases.insert(0, dict(id=2 * 10 ** 6, seed=1, argv=list(rp['value']), version=rp.get('version')))
     # the input of the recorded finding is always exercised
     cases.append(dict(id=10 ** 6, seed=1, version='12', argv=['-f', '15.72', '--wire=4,0.5844,0.506,0.0,-0.22586,-0.88239,1.4111,0.00212',
         '--wire=7,-0.22586,-0.88239,1.4111,0.38378,1.6284,2.5133,0.00107', '--medium=0,0,0', '--excitation-pulse=3', '--insulation-load=0.0091,4.3']))
